@@ -9,86 +9,15 @@ package tmengine
 // signed A hold more than two thirds of the total power.
 
 import (
-	"context"
-	"runtime"
-	"time"
-
 	"github.com/gordian-engine/gordian/gcrypto"
-	"github.com/gordian-engine/gordian/gwatchdog"
 	"github.com/gordian-engine/gordian/internal/verifrt"
 	"github.com/gordian-engine/gordian/internal/verifrt/vkit"
 	"github.com/gordian-engine/gordian/tm/tmconsensus"
-	"github.com/gordian-engine/gordian/tm/tmdriver"
-	"github.com/gordian-engine/gordian/tm/tmengine/tmelink"
-	"github.com/gordian-engine/gordian/tm/tmstore/tmmemstore"
 )
-
-type vhE1CS struct{}
-
-func (vhE1CS) EnterRound(context.Context, tmconsensus.RoundView, chan<- tmconsensus.Proposal) error {
-	return nil
-}
-func (vhE1CS) ConsiderProposedBlocks(context.Context, []tmconsensus.ProposedHeader, tmconsensus.ConsiderProposedBlocksReason) (string, error) {
-	return "", tmconsensus.ErrProposedBlockChoiceNotReady
-}
-func (vhE1CS) ChooseProposedBlock(context.Context, []tmconsensus.ProposedHeader) (string, error) {
-	return "", nil
-}
-func (vhE1CS) DecidePrecommit(context.Context, tmconsensus.VoteSummary) (string, error) {
-	return "", nil
-}
-
-type vhE1GS struct{ done chan struct{} }
-
-func (g vhE1GS) Start(ch <-chan tmelink.NetworkViewUpdate) {
-	go func() {
-		defer close(g.done)
-		for range ch {
-		}
-	}()
-}
-func (g vhE1GS) Wait() {}
-
-type vhE1RT struct{}
-
-func (vhE1RT) ProposalTimer(context.Context, uint64, uint32) (<-chan struct{}, func()) {
-	return nil, func() {}
-}
-func (vhE1RT) PrevoteDelayTimer(context.Context, uint64, uint32) (<-chan struct{}, func()) {
-	return nil, func() {}
-}
-func (vhE1RT) PrecommitDelayTimer(context.Context, uint64, uint32) (<-chan struct{}, func()) {
-	return nil, func() {}
-}
-func (vhE1RT) CommitWaitTimer(context.Context, uint64, uint32) (<-chan struct{}, func()) {
-	return nil, func() {}
-}
-
-// vhE1Poll: a finalize request the engine has ready, if any.
-func vhE1Poll(ch chan tmdriver.FinalizeBlockRequest) (tmdriver.FinalizeBlockRequest, bool) {
-	if verifrt.Symbolic() {
-		for i := 0; i < 6; i++ {
-			runtime.Gosched() // every other goroutine runs until it blocks
-			select {
-			case r := <-ch:
-				return r, true
-			default:
-			}
-		}
-		return tmdriver.FinalizeBlockRequest{}, false
-	}
-	select {
-	case r := <-ch:
-		return r, true
-	case <-time.After(400 * time.Millisecond):
-		return tmdriver.FinalizeBlockRequest{}, false
-	}
-}
 
 func VH_C01_E1_EngineFinalizesOnlyOnCertificate() {
 	verifrt.Summarize("ByzantineThresholds")
 	const n = 3
-	hs := vkit.HashScheme{}
 	keys := vkit.OkKeys(n)
 	pows := vkit.Powers("power", n)
 	vs := vkit.ValSet(keys, pows)
@@ -96,37 +25,17 @@ func VH_C01_E1_EngineFinalizesOnlyOnCertificate() {
 	for _, p := range pows {
 		total += p
 	}
-	gen := &tmconsensus.ExternalGenesis{ChainID: "c", InitialHeight: 1, GenesisValidatorSet: vs}
-	finCh := make(chan tmdriver.FinalizeBlockRequest)
-	initCh := make(chan tmdriver.InitChainRequest)
-	chs := tmmemstore.NewCommittedHeaderStore()
-	ctx, cancel := context.WithCancel(context.Background())
-	defer cancel()
-	go func() {
-		select {
-		case req := <-initCh:
-			req.Resp <- tmdriver.InitChainResponse{AppStateHash: []byte("app")}
-		case <-ctx.Done():
-		}
-	}()
-	e, err := New(ctx, verifrt.Logger(),
-		WithGenesis(gen), WithHashScheme(hs), WithSignatureScheme(vkit.SigScheme{}),
-		WithCommonMessageSignatureProofScheme(gcrypto.SimpleCommonMessageSignatureProofScheme{}),
-		WithGossipStrategy(vhE1GS{done: make(chan struct{})}),
-		WithFinalizationStore(tmmemstore.NewFinalizationStore()), WithMirrorStore(tmmemstore.NewMirrorStore()),
-		WithRoundStore(tmmemstore.NewRoundStore()), WithStateMachineStore(tmmemstore.NewStateMachineStore()),
-		WithValidatorStore(tmmemstore.NewValidatorStore(hs)), WithWatchdog(&gwatchdog.Watchdog{}),
-		WithConsensusStrategy(vhE1CS{}), WithBlockFinalizationChannel(finCh), WithInternalRoundTimer(vhE1RT{}),
-		WithCommittedHeaderStore(chs), WithActionStore(tmmemstore.NewActionStore()), WithInitChainChannel(initCh),
-	)
-	if err != nil || e == nil {
+	st := vhNewEngStores()
+	l, err := vhStartEngine(st, vs)
+	if err != nil || l == nil {
 		verifrt.Fail("E1:engine-does-not-start")
 		return
 	}
+	e, ctx, finCh, chs := l.e, l.ctx, l.finCh, st.chs
 	verifrt.Assume(verifrt.UFBool("hashok", vkit.Pack([]byte("A")), 1))
 	phA := tmconsensus.ProposedHeader{
 		Header: tmconsensus.Header{Hash: []byte("A"), PrevBlockHash: []byte("g"), Height: 1,
-			ValidatorSet: vs, NextValidatorSet: vs, DataID: []byte("d"),
+			ValidatorSet: vs, NextValidatorSet: vs, DataID: []byte("d"), PrevAppStateHash: []byte("app"),
 			PrevCommitProof: tmconsensus.CommitProof{Proofs: map[string][]gcrypto.SparseSignature{}}},
 		Round: 0, ProposerPubKey: keys[0], Signature: []byte("psA"),
 	}
@@ -187,6 +96,5 @@ func VH_C01_E1_EngineFinalizesOnlyOnCertificate() {
 		verifrt.Assert(certificate, "E1:committed-header-recorded-without-a-two-thirds-certificate")
 	}
 	verifrt.Observe("E1", verifrt.B2U(asked), verifrt.B2U(certificate))
-	cancel()
-	verifrt.MustReturn("E1:engine-does-not-shut-down", func() { e.Wait() })
+	l.stop("E1:engine-does-not-shut-down")
 }
